@@ -11,7 +11,7 @@ from . import src as S
 
 VERIF = os.path.dirname(os.path.dirname(os.path.abspath(__file__)))
 DRIVER_DIR = os.path.join(VERIF, "driver")
-DRIVER_BIN = os.path.join(DRIVER_DIR, "target", "release", "verif-driver")
+DRIVER_BIN = os.environ.get("VERIF_DRIVER_BIN") or os.path.join(DRIVER_DIR, "target", "release", "verif-driver")  # override: experiments only
 REPO = "/repo"
 
 
@@ -102,7 +102,8 @@ class Case:
 
     def __init__(self, cid, prog, args=None, interpret=True, debug_modes=(False, True), mut=None,
                  validate=True, tags=None, text=None, expect_reject=False, cross=None, note=None,
-                 wit_fixed=None, check_markers=False, expect_params=None, expect_instantiate_error=False, extra_points=0):
+                 wit_fixed=None, check_markers=False, expect_params=None, expect_instantiate_error=False, extra_points=0,
+                 custom=None):
         self.cid = cid
         self.prog = prog            # S.Program (specification side)
         self.args = args or {}      # name -> (ty, const expression AST)
@@ -121,6 +122,7 @@ class Case:
         self.expect_params = expect_params  # C12: {name: type string} that parameters() must report exactly
         self.expect_instantiate_error = expect_instantiate_error  # C12: instantiate must refuse these arguments
         self.extra_points = extra_points  # additional concrete cross-validation points
+        self.custom = custom        # module-level function(case, res, solver) -> result dict: an obligation of its own shape
 
 
 def _arg_request(case):
@@ -298,6 +300,8 @@ class _Budgeted:
 
 def _check_case(case, res):
     solver = _Budgeted(_W["solver"])
+    if case.custom is not None:
+        return case.custom(case, res, solver)
     text = case.text if case.text is not None else S.program_text(case.prog)
     res["text"] = text
     out = {}
